@@ -423,9 +423,11 @@ func Coinbase(height uint64, salt uint64, outs []*wire.TxOut) *wire.MsgTx {
 	for _, o := range outs {
 		tx.AddTxOut(o)
 	}
-	p := make([]byte, 16)
+	// consensus layout of a coinbase payload: height (8 bytes), number of staking-reward outputs
+	// (4 bytes, none here); the salt follows as extra data
+	p := make([]byte, 20)
 	binary.LittleEndian.PutUint64(p, height)
-	binary.LittleEndian.PutUint64(p[8:], salt)
+	binary.LittleEndian.PutUint64(p[12:], salt)
 	tx.SetPayload(p)
 	return tx
 }
